@@ -249,3 +249,5 @@ def run(chk, tier):
     chk.guard('C20.g', lambda: c20.rule_unsequenced(chk, prog, tier))
     chk.guard('C16.b', lambda: c16.rule_hash(chk, prog, tier))
     chk.guard('C01.a', lambda: c01.rule_binop(chk, prog, tier))
+    from props import c05
+    chk.guard('C05.c', lambda: c05.rule_binary_types(chk, prog, tier))     # the operand conversions the compiler's own arithmetic (eval.c: 64-bit shifts, comparisons) is compiled with
